@@ -50,10 +50,21 @@ def undeclared_family(n, profiles, cfgs, seats=None):
                 yield with_cfgs(ecase.make(n, s, ballots, ud=ud), cfgs)
 
 
+def withdrawn_undeclared_family(n, profiles, cfgs, seats=None):
+    "every pair (withdrawn subset, undeclared subset) with a non-empty withdrawn set, overlapping ones included"
+    for ballots in profiles:
+        for s in (seats or range(1, n + 1)):
+            for wd in spaces.subsets(range(1, n + 1), 1, n - 1):
+                if not valid_after_removal(n, s, ballots, wd):
+                    continue
+                for ud in spaces.subsets(range(1, n + 1), 1, n):
+                    yield with_cfgs(ecase.make(n, s, ballots, wd=wd, ud=ud), cfgs)
+
+
 def standard(tier, snapshots_cost=1.0):
     """the default mix used by the per-step monitors (C01, C02, C04, C09, C18):
     quick  : U(3,<=4) x s x T{id,rev} x 11 rules, U(3,5) x s x 11 rules; U(3,<=4) x s x every second entry of the option menus (thorough: all);
-             U(3,<=4) x withdrawn subsets x 11 rules; x undeclared subsets x mpls(+wigm-prf); U(2,<=8);
+             U(3,<=4) x withdrawn subsets x 11 rules; x undeclared subsets x mpls(+wigm-prf); withdrawn x undeclared (overlapping) subsets x mpls; U(2,<=8);
              W(4,2,3,{1,2}) x s in {2,3} x 11 rules (4 candidates: qpq restarts, 2-step transfers);
              bullet piles BU(4) of sizes {0,1,2,3,5,8,13} x s in {1,2,3} (exhausting surpluses, tied tails)
     thorough adds U(3,6..7), weighted W spaces with 4 and 5 candidates, U(4,4) for five fast rules,
@@ -65,6 +76,7 @@ def standard(tier, snapshots_cost=1.0):
     yield from seats_ties(3, spaces.U(3, 0, 4), ties='id', cfgs=menus if tier == 'thorough' else menus[::2])
     yield from withdrawn_family(3, spaces.U(3, 0, 4), D)
     yield from undeclared_family(3, spaces.U(3, 0, 4), [{'rule': 'mpls'}, {'rule': 'wigm-prf'}])
+    yield from withdrawn_undeclared_family(3, spaces.U(3, 0, 3 if tier == 'quick' else 4), [{'rule': 'mpls'}])
     yield from seats_ties(4, spaces.W(4, 2, 3, (1, 2)), seats=(2, 3), ties='id', cfgs=D)
     yield from seats_ties(4, spaces.BU(4), seats=(1, 2, 3), ties='id', cfgs=D)
     yield from seats_ties(3, spaces.U(3, 5, 5), ties='id' if tier == 'quick' else 'idrev', cfgs=D)
